@@ -87,7 +87,7 @@ def dedupe_races(text):
             for l in stack.splitlines():
                 l = l.strip()
                 if l.startswith("github.com/polynetwork/poly/") and l.endswith(")"):
-                    top = re.sub(r"\(.*\)$", "", l).replace("github.com/polynetwork/poly/", "")
+                    top = re.sub(r"\(\)$", "", l).replace("github.com/polynetwork/poly/", "")
                     break
             tops.append(top or "non-poly")
         key = "data-race:" + "|".join(sorted(set(tops)))
@@ -141,11 +141,14 @@ def run_check(pid, tier, replay=None, keep=False):
     os.makedirs(tmp + "/ev")
     gen_gomod(tmp)
     os.makedirs(tmp + "/cwd")
-    logdir = os.path.join(VERIF, "logs")
+    # runs against another tree (VERIF_REPO, used for seeded changes) keep their logs and evidence
+    # apart so that they never overwrite what the registered checks wrote for /repo
+    alt = "" if os.path.realpath(REPO) == "/repo" else "-alt"
+    logdir = os.path.join(VERIF, "logs" + alt)
     os.makedirs(logdir, exist_ok=True)
-    os.makedirs(os.path.join(VERIF, "evidence"), exist_ok=True)
+    os.makedirs(os.path.join(VERIF, "evidence" + alt), exist_ok=True)
     os.makedirs(os.path.join(VERIF, "replays"), exist_ok=True)
-    evfile = os.path.join(VERIF, "evidence", pid + ".json")
+    evfile = os.path.join(VERIF, "evidence" + alt, pid + ".json")
     if os.path.exists(evfile):
         os.remove(evfile)
     rc = 0
